@@ -45,9 +45,9 @@ inductive PyVal where
   | int (n : Int) | bool (b : Bool) | float | str (hasCtl : Bool) | bytes | date | datetime | other
   deriving DecidableEq, Repr
 
-instance : DecidableEq (Res Unit) := fun a b =>
+instance {α : Type} [DecidableEq α] : DecidableEq (Res α) := fun a b =>
   match a, b with
-  | .ok _, .ok _ => isTrue rfl
+  | .ok x, .ok y => if h : x = y then isTrue (by rw [h]) else isFalse (by intro e; cases e; exact h rfl)
   | .error e, .error f => if h : e = f then isTrue (by rw [h]) else isFalse (by intro x; cases x; exact h rfl)
   | .ok _, .error _ => isFalse (by intro x; cases x)
   | .error _, .ok _ => isFalse (by intro x; cases x)
